@@ -14,6 +14,9 @@ names or that an asymmetric fast path would break:
 * `oversize_shift`, `byte_out_of_range`, `exp_zero_exponent`, `sdiv_overflow_wraps`: the corner regions the
                            property names (shifts ≥ 256, BYTE index ≥ 32, `0^0`, `-2^255 / -1`), for every representation;
 
+* `spec_closed`, `result_in_range`: the reference semantics `Spec.Word` (trusted as the meaning of the EVM) maps
+                           256-bit words to 256-bit words for all 25 instructions, and so does the model;
+
 All are about the generated model `execWord` (tied to bitvec.py / sevm.py by tools/props/c06.py); none adds a
 hypothesis beyond those of `op_exact`.
 -/
@@ -223,5 +226,83 @@ example : ∃ r aux, execWord idSimp {} .SDIV [.bv 256 (.sym (.var "y" 256)), .b
     r.denote exI = 2 ^ 255 :=
   sdiv_overflow_wraps C06.idSimp_sound exI_std {} _ _ (word_var "y") (word_con (by decide))
     (by decide +kernel) (by decide +kernel)
+
+/-! ### the reference semantics is well-typed, and so is every result -/
+
+theorem ofInt_lt (n : Nat) (i : Int) : ofInt n i < 2 ^ n := by
+  unfold ofInt
+  have hpos : (0 : Int) < ((2 ^ n : Nat) : Int) := by exact_mod_cast Nat.two_pow_pos n
+  have h1 := Int.emod_lt_of_pos i hpos
+  have h0 := Int.emod_nonneg i (by omega : ((2 ^ n : Nat) : Int) ≠ 0)
+  omega
+
+theorem W_pos : 0 < Word.W := Nat.two_pow_pos 256
+
+/-- the reference semantics is closed on 256-bit words: every instruction maps words to a word -/
+theorem spec_closed (op : WordOp) (args : List Nat) (hlen : args.length = arity op) (hargs : ∀ a ∈ args, a < Word.W) :
+    specOp op args < Word.W := by
+  have hW : Word.W = 2 ^ 256 := rfl
+  cases op
+  case ISZERO => obtain ⟨a, rfl⟩ := len1 hlen; simp only [specOp, Word.iszero]; split <;> decide
+  case NOT => obtain ⟨a, rfl⟩ := len1 hlen; simp only [specOp, Word.not]; have := W_pos; omega
+  case ADDMOD =>
+    obtain ⟨a, b, n, rfl⟩ := len3 hlen
+    have hn := hargs n (by simp)
+    simp only [specOp, Word.addmod]; split
+    · exact W_pos
+    · exact Nat.lt_trans (Nat.mod_lt _ (by omega)) hn
+  case MULMOD =>
+    obtain ⟨a, b, n, rfl⟩ := len3 hlen
+    have hn := hargs n (by simp)
+    simp only [specOp, Word.mulmod]; split
+    · exact W_pos
+    · exact Nat.lt_trans (Nat.mod_lt _ (by omega)) hn
+  case SAR =>
+    obtain ⟨a, b, rfl⟩ := len2 hlen
+    simp only [specOp, Word.sar]
+    split
+    · split
+      · have := W_pos; omega
+      · exact W_pos
+    · exact ofInt_lt 256 _
+  all_goals
+    obtain ⟨a, b, rfl⟩ := len2 hlen
+    have ha := hargs a (by simp)
+    have hb := hargs b (by simp)
+    simp only [specOp, Word.add, Word.mul, Word.sub, Word.div, Word.sdiv, Word.mod, Word.smod, Word.exp,
+      Word.signextend, Word.lt, Word.gt, Word.slt, Word.sgt, Word.eq, Word.and, Word.or, Word.xor, Word.byte,
+      Word.shl, Word.shr]
+    first
+      | exact Nat.mod_lt _ W_pos
+      | (split <;> first | exact W_pos | exact ofInt_lt 256 _ | exact Nat.mod_lt _ W_pos | decide
+                         | exact Nat.lt_of_le_of_lt (Nat.div_le_self _ _) ha
+                         | exact Nat.lt_of_le_of_lt (Nat.div_le_self _ _) hb
+                         | exact Nat.lt_of_le_of_lt (Nat.mod_le _ _) ha
+                         | assumption
+                         | (have := W_pos; omega))
+      | (rw [hW] at *; first | exact Nat.and_lt_two_pow _ hb | exact Nat.or_lt_two_pow ha hb | exact Nat.xor_lt_two_pow ha hb)
+
+/-- a well-formed stack word of any representation denotes a number below `2^256` -/
+theorem word_denote_lt (I : Interp) (a : HV) (ha : a.WF ∧ a.IsWord) : a.denote I < Word.W := by
+  cases a with
+  | bv size r =>
+    have hs : size = 256 := ha.2
+    subst hs
+    exact denote_lt ha.1
+  | bool r => cases r <;> simp only [HV.denote] <;> split <;> decide
+
+/-- **result_in_range.** Under the hypotheses of `op_exact` the result denotes a 256-bit word equal to the
+    spec's result on 256-bit operands (so nothing "leaks" above bit 255 in any representation). -/
+theorem result_in_range {s : Simp} (hs : SimpSound s) {I : Interp} (hI : I.Std) (cfg : WordCfg) (op : WordOp)
+    (args : List HV) (hlen : args.length = arity op) (hargs : ∀ a ∈ args, a.WF ∧ a.IsWord)
+    (hse : op = .SIGNEXTEND → ∀ a, args.head? = some a → (toBV256 s a).isConcrete = true) :
+    ∃ r aux, execWord s cfg op args = .ok (r, aux) ∧ r.denote I < Word.W := by
+  obtain ⟨r, aux, he, _, _, hd, _⟩ := op_exact hs hI cfg op args hlen hargs hse
+  refine ⟨r, aux, he, ?_⟩
+  rw [hd]
+  apply spec_closed op _ (by simpa using hlen)
+  intro x hx
+  obtain ⟨a, ha, rfl⟩ := List.mem_map.1 hx
+  exact word_denote_lt I a (hargs a ha)
 
 end HalmosVerif.Props.C06Algebra
